@@ -114,8 +114,8 @@ def documented_step(b):
         return {"x": F(x1), "z": F(z1), "zold": F(s.z), "u": F(s.u + s.H(x1, z1)), "uold": F(s.u)}
     if a == "pdhg":
         if b.recipe.get("nl") is not None:
-            J = jax.jacfwd(lambda x: s.C(x))(s.x)
-            x1 = s.f.prox(s.x - s.tau * (J.T @ s.z), s.tau)
+            J = jax.jacfwd(lambda x: s.C(x), holomorphic=cx)(s.x)
+            x1 = s.f.prox(s.x - s.tau * (J.conj().T @ s.z), s.tau)
         else:
             x1 = s.f.prox(s.x - s.tau * s.C.adj(s.z), s.tau)
         z1 = s.g.conj_prox(s.z + s.sigma * s.C((1.0 + s.alpha) * x1 - s.alpha * s.x), s.sigma)
